@@ -53,7 +53,7 @@ P = {
  "C14": ("Finished comparison on both abbreviated paths, resumed master secret provenance (store lookup keyed by the offered ID), fresh randoms/CIDs on every path of the hello generators, fatal alert deletes the session before the alert is written, client certificate clears the session ID; session-store adapter preserves a miss; only the full-handshake parsers write the store.",
          "Store contents over histories; loss patterns.",
          "must-pass-through + provenance + decision table"),
- "C15": ("CID checks on receive (with C05), CID wrapping flags on every protected packet literal, Conn.rAddr has a single guarded writer, WriteToContext call sites dominated by the amplification reserve, Reserve factor constant; the commit function reports the detector's "newest record" answer (gate for path challenges).",
+ "C15": ("CID checks on receive (with C05), CID wrapping flags on every protected packet literal, Conn.rAddr has a single guarded writer, WriteToContext call sites dominated by the amplification reserve, Reserve factor constant; the commit function reports the detector's newest-record answer (gate for path challenges).",
          "Timing, racing paths, listener map behaviour.",
          "who-may-write + control dependence + dominance"),
  "C16": ("Lock-acquisition order graph acyclic; every blocking channel operation has a cancellation alternative; single close site per channel; close()/close_notify decision table; the write-path context helpers return the context that a watcher on Conn.closed cancels, on every path.",
